@@ -25,11 +25,12 @@ enum OpCode : uint8_t {
   FWD,         // n forwards, each individually observed (coordinator only)
   FWD_BULK,    // n forwards inside a no-preempt scope (positioning)
   YIELD,       // let every other runnable thread go first (stay in user code)
+  GUARD_REFRESH,  // guard = CreateEpochGuard() / GetProtectedEpochs().first while the guard is alive (a: 0/1)
   NOP,
   kNumOps
 };
 inline const char *kOpName[] = {"GETID", "GETHB", "CHECKHB", "SPIN", "GUARD_NEW", "GUARD_MOVE", "GUARD_END", "CHECK_LIST",
-                                "READ_CUR", "READ_MIN", "FWD", "FWD_BULK", "YIELD", "NOP"};
+                                "READ_CUR", "READ_MIN", "FWD", "FWD_BULK", "YIELD", "GUARD_REFRESH", "NOP"};
 
 struct Op {
   uint8_t code = NOP;
